@@ -35,6 +35,11 @@ type walker struct {
 	// quiet: the walk is not sent to the Lean model (no protocol lines); the direct clauses are evaluated all the same,
 	// and values are compared with the fresh model bit for bit (the long no-drift walks)
 	quiet bool
+	// hiddenDesync: the model was re-synchronised by a whole-set load that the implementation did NOT execute (an interrupted,
+	// spinning Randomize()): values and action states agree, the last-applied action and the variables' last commands need
+	// not.  Conformant histories never show them; raw call sequences would, so none is started until an
+	// Initialise has rebuilt both.
+	hiddenDesync bool
 	// shadows: further real models of the same dataset, each under its own (variable, limit), driven through the very
 	// same proposals as cm during the exhaustive walk.  They are judged by the direct clauses only (C10 verdict and
 	// reason text against the fresh-model oracle); their operations are not sent to the Lean model (cm's are).
@@ -254,7 +259,8 @@ func proposeResult(cm *CM, during *Snap, vd Verdict, ch [6]float64) string {
 		sb.WriteString("-")
 	} else {
 		// the value quoted IN THE REASON TEXT (not on the grid / not parsable prints as nan or with extra digits)
-		sb.WriteString(gridFmt(vd.quoted, varPrec[cm.limVar]))
+		// the number of the reason that is closest to the value the model itself reports as prospective
+		sb.WriteString(gridFmt(vd.quotedNear(during.totals[cm.limVar]+ch[cm.limVar]), varPrec[cm.limVar]))
 	}
 	sb.WriteString(" C")
 	for k := range varNames {
@@ -274,6 +280,10 @@ func (w *walker) rawMisuse(r *Rng) {
 	if len(w.shadows) > 0 || w.quiet {
 		return
 	}
+	if w.hiddenDesync {
+		w.c.Stat("raw misuse sequence not started: the model was re-synchronised after an interrupted Randomize()")
+		return
+	}
 	cm := w.cm
 	n := cm.n()
 	i, j := r.Intn(n), r.Intn(n)
@@ -282,37 +292,46 @@ func (w *walker) rawMisuse(r *Rng) {
 	from := bitsStr(cm.flags())
 	w.c.Stat("raw misuse sequence " + kind)
 	for _, step := range strings.Split(kind, ";") {
-		var s *Snap
-		switch step {
-		case "propose":
-			if p := protect(func() { cm.tryRandom(i) }); p != "" {
-				w.op(fmt.Sprintf("propose %d", i), "panic")
-				w.c.Stat("raw misuse sequence panicked")
-				w.reinit("asis")
-				return
-			}
-			s = cm.snap()
-			w.op(fmt.Sprintf("propose %d", i), proposeResult(cm, s, cm.verdict(), cm.changes()))
-			i = j
-		case "accept", "revert":
-			if p := protect(func() {
-				if step == "accept" {
-					cm.m.AcceptChange()
-				} else {
-					cm.m.RevertChange()
-				}
-			}); p != "" {
-				w.op(step, "panic")
-				w.c.Stat("raw misuse sequence panicked")
-				w.reinit("asis")
-				return
-			}
-			s = cm.snap()
-			w.op(step, cm.dumpSnap(s))
+		if !w.rawStep(step, i, fmt.Sprintf("the call sequence %s (at %s) from set %s", kind, step, from)) {
+			w.c.Stat("raw misuse sequence panicked")
+			break
 		}
-		w.aggregates(fmt.Sprintf("the call sequence %s (at %s) from set %s", kind, step, from), s, cm.pus)
+		if step == "propose" {
+			i = j
+		}
 	}
 	w.reinit("asis")
+}
+
+// rawStep: ONE call of the model interface (propose action i / accept / revert) sent through the line protocol, judged by
+// C11's aggregate clauses alone.  false = it panicked.
+func (w *walker) rawStep(step string, i int, after string) bool {
+	cm := w.cm
+	var s *Snap
+	switch step {
+	case "propose":
+		if p := protect(func() { cm.tryRandom(i) }); p != "" {
+			w.op(fmt.Sprintf("propose %d", i), "panic")
+			return false
+		}
+		s = cm.snap()
+		w.op(fmt.Sprintf("propose %d", i), proposeResult(cm, s, cm.verdict(), cm.changes()))
+	default:
+		if p := protect(func() {
+			if step == "accept" {
+				cm.m.AcceptChange()
+			} else {
+				cm.m.RevertChange()
+			}
+		}); p != "" {
+			w.op(step, "panic")
+			return false
+		}
+		s = cm.snap()
+		w.op(step, cm.dumpSnap(s))
+	}
+	w.aggregates(after, s, cm.pus)
+	return true
 }
 
 // aggregates: C11's clauses alone, on one snapshot.
@@ -452,23 +471,18 @@ func (w *walker) judgeVerdict(cm *CM, i int, preFlags []bool, preTotal, change f
 		w.fail("C10:verdict-exact", "catchment:verdict-wrong:"+kind,
 			fmt.Sprintf("propose %d in set %s: %s is %v, would be %v (reported change %v), limit %v, verdict valid=%v (%s)", i, preEnc, varNames[v], preTotal, would, change, cm.limit, valid, clip(vd.msg, 200)))
 	} else if !valid {
-		// the reason text: names the limited variable, quotes the prospective value and the configured maximum
-		// (six decimals: half a unit of the last printed place is the tolerance)
-		tol := func(x float64) float64 { return 0.5000001e-6 + 1e-12*math.Abs(x) }
+		// the reason text QUOTES the prospective value (printed at least at the variable's reporting precision; half a unit
+		// of the last printed place is the tolerance).  Whether it also names the variable and quotes the bound is counted,
+		// not demanded: the property does not say so.
 		switch {
-		case !vd.parsed:
+		case len(vd.nums) == 0:
 			w.fail("C10:quoted-value-is-prospective", "catchment:rejection-reason-unreadable",
-				fmt.Sprintf("propose %d in set %s (limit %v on %s): the rejection reason %q is not of the form `<variable> <value> > upper bound <maximum>`", i, preEnc, cm.limit, varNames[v], clip(vd.msg, 200)))
-		case vd.name != varNames[v]:
-			w.fail("C10:quoted-value-is-prospective", "catchment:rejection-reason-names-wrong-variable",
-				fmt.Sprintf("propose %d in set %s: the limit is on %s but the rejection reason is %q", i, preEnc, varNames[v], clip(vd.msg, 200)))
-		case !(math.Abs(vd.quoted-would) <= tol(would)):
+				fmt.Sprintf("propose %d in set %s (limit %v on %s): the rejection reason %q quotes no value at all", i, preEnc, cm.limit, varNames[v], clip(vd.msg, 200)))
+		case !vd.quotes(would, varPrec[v]):
 			w.fail("C10:quoted-value-is-prospective", "catchment:quoted-value-wrong",
-				fmt.Sprintf("propose %d in set %s: the rejection reason %q quotes %v but %s would be %v (it is %v now)", i, preEnc, clip(vd.msg, 200), vd.quoted, varNames[v], would, preTotal))
-		case !(math.Abs(vd.maximum-cm.limit) <= tol(cm.limit)):
-			w.fail("C10:quoted-value-is-prospective", "catchment:quoted-bound-wrong",
-				fmt.Sprintf("propose %d in set %s: the rejection reason %q quotes the bound %v but the configured maximum is %v", i, preEnc, clip(vd.msg, 200), vd.maximum, cm.limit))
+				fmt.Sprintf("propose %d in set %s: the rejection reason %q quotes %v but %s would be %v (it is %v now)", i, preEnc, clip(vd.msg, 200), vd.quotedNear(would), varNames[v], would, preTotal))
 		}
+		w.c.Stat(fmt.Sprintf("rejection reason names the limited variable: %v, quotes the bound: %v", strings.Contains(vd.msg, varNames[v]), vd.quotes(cm.limit, 0)))
 	}
 	if !near(would, byChange) {
 		w.fail("C02:reported-change-is-prospective-change", "catchment:reported-change-wrong:"+varShort[v],
@@ -557,6 +571,7 @@ func (w *walker) reinit(kind string) {
 		w.fail("no-panic", "catchment:init-panic", p)
 		return
 	}
+	w.hiddenDesync = false
 	s := w.cm.snap()
 	w.op("init "+kind, w.cm.dumpSnap(s))
 	w.c.Stat(w.tag + " init " + kind)
@@ -607,6 +622,7 @@ func (w *walker) randomize(r *Rng) {
 		w.c.Stat(w.tag + " randomize spins (all remaining toggles valid, attempts left)")
 		w.op("setall "+strings.ReplaceAll(bitsStr(s.flags), "-", ""), cm.dumpSnap(s))
 		w.checkState("randomize (spinning, interrupted)", s)
+		w.hiddenDesync = true
 		return
 	}
 	line := strings.TrimSpace("randomize " + strings.Join(ds, " "))
@@ -638,7 +654,7 @@ func (w *walker) misuse(r *Rng) {
 		bits[i] = r.Chance(p)
 	}
 	w.ref.at(bits) // may be cached: set the state explicitly
-	cm.m.Initialise(0)
+	cm.reinit("asis") // re-installs the scripted source: tryRandom(i) must toggle action i
 	for i, b := range bits {
 		if b {
 			cm.m.SetManagementAction(i, true)
@@ -1032,7 +1048,7 @@ func suiteCatchmentWalk(c *Ctx) {
 						cn[ca] = !cn[ca]
 						v1 := ref.at(cn).totals[v]
 						ref.at(cb)
-						ref.cm.m.Initialise(0)
+						ref.cm.reinit("asis") // re-installs the scripted source: tryRandom(ca) must toggle action ca
 						for i, b := range cb {
 							if b {
 								ref.cm.m.SetManagementAction(i, true)
@@ -1213,7 +1229,8 @@ func replayCatchment(c *Ctx) {
 			limit = math.Float64frombits(b)
 		}
 	}
-	for _, l := range lines {
+	rawMode := false
+	for li, l := range lines {
 		f := strings.Fields(l)
 		if len(f) == 0 {
 			continue
@@ -1229,14 +1246,31 @@ func replayCatchment(c *Ctx) {
 			if w == nil {
 				continue
 			}
+			// a proposal directly followed by accept / revert is a transaction (all direct clauses); anything else is a raw
+			// call sequence (rawMisuse), which lasts until the next Initialise and is judged by the aggregate clauses alone
+			next := ""
+			for _, l2 := range lines[li+1:] {
+				if f2 := strings.Fields(l2); len(f2) > 0 {
+					next = f2[0]
+					break
+				}
+			}
 			switch f[0] {
 			case "propose":
 				i, _ := strconv.Atoi(f[1])
-				w.pendingReplay(i)
-			case "accept":
-				w.finishReplay(true)
-			case "revert":
-				w.finishReplay(false)
+				if !rawMode && (next == "accept" || next == "revert") {
+					w.pendingReplay(i)
+				} else {
+					rawMode = true
+					w.rawStep("propose", i, "a raw call sequence (replay)")
+				}
+			case "accept", "revert":
+				if replayPending >= 0 {
+					w.finishReplay(f[0] == "accept")
+				} else {
+					rawMode = true
+					w.rawStep(f[0], 0, "a raw call sequence (replay)")
+				}
 			case "set":
 				i, _ := strconv.Atoi(f[1])
 				w.set(i, f[2] == "1")
@@ -1247,6 +1281,7 @@ func replayCatchment(c *Ctx) {
 				}
 				w.setAll(bits, 0)
 			case "init":
+				rawMode = false
 				w.reinit(f[1])
 			case "randomize":
 				draws := []int{}
